@@ -12,6 +12,7 @@ import (
 	"sync"
 
 	connect "github.com/bufbuild/connect-go"
+	"google.golang.org/protobuf/encoding/protowire"
 	"google.golang.org/protobuf/proto"
 	"google.golang.org/protobuf/types/known/wrapperspb"
 )
@@ -513,6 +514,82 @@ func foreignPeersE2E(c *Ctx) {
 			if got != fmt.Sprintf("seen=%q err=ok", vals) {
 				c.Fail("e2e-foreign-peer", desc, got, "a conformant foreign server's messages did not reach the application intact and in order")
 			}
+		}
+	}
+	// (c) a gRPC server that ends an empty stream with a trailers-only OK response
+	for _, p := range []string{"grpc", "grpcweb"} {
+		opts := []connect.ClientOption{connect.WithGRPC()}
+		ct := "application/grpc"
+		if p == "grpcweb" {
+			opts = []connect.ClientOption{connect.WithGRPCWeb()}
+			ct = "application/grpc-web+proto"
+		}
+		got := safely(func() string {
+			sc := &staticClient{status: 200, header: http.Header{"Content-Type": {ct}, "Grpc-Status": {"0"}}, body: nil}
+			cl := connect.NewClient[wrapperspb.StringValue, wrapperspb.StringValue](sc, "http://h/s/m", opts...)
+			s, err := cl.CallServerStream(context.Background(), connect.NewRequest(&wrapperspb.StringValue{}))
+			if err != nil {
+				return "call: " + err.Error()
+			}
+			n := 0
+			for s.Receive() {
+				n++
+			}
+			e := "ok"
+			if s.Err() != nil {
+				e = s.Err().Error()
+			}
+			_ = s.Close()
+			return fmt.Sprintf("messages=%d err=%s", n, e)
+		})
+		c.Count("e2e:foreign-server")
+		if got != "messages=0 err=ok" {
+			c.Fail("e2e-foreign-peer", "foreign server, "+p+", empty stream ended by a trailers-only OK response", got, "an empty stream from a conformant server must end cleanly")
+		}
+	}
+	// (d) fields the receiver's schema does not know travel with the message (binary codec) -
+	// a peer on a newer schema, a pass-through service
+	for _, p := range []string{"connect", "grpc", "grpcweb"} {
+		h := connect.NewBidiStreamHandler("/s/m", func(ctx context.Context, s *connect.BidiStream[wrapperspb.StringValue, wrapperspb.StringValue]) error {
+			for {
+				m, err := s.Receive()
+				if err != nil {
+					return nil
+				}
+				if err := s.Send(m); err != nil {
+					return err
+				}
+			}
+		})
+		got := safely(func() string {
+			var opts []connect.ClientOption
+			switch p {
+			case "grpc":
+				opts = append(opts, connect.WithGRPC())
+			case "grpcweb":
+				opts = append(opts, connect.WithGRPCWeb())
+			}
+			cl := connect.NewClient[wrapperspb.StringValue, wrapperspb.StringValue](&inprocClient{h: h}, "http://h/s/m", opts...)
+			s := cl.CallBidiStream(context.Background())
+			sent := &wrapperspb.StringValue{Value: "known"}
+			sent.ProtoReflect().SetUnknown(protowire.AppendVarint(protowire.AppendTag(nil, 99, protowire.VarintType), 12345))
+			if err := s.Send(sent); err != nil {
+				return "send: " + err.Error()
+			}
+			_ = s.CloseRequest()
+			back, err := s.Receive()
+			if err != nil {
+				return "receive: " + err.Error()
+			}
+			_ = s.CloseResponse()
+			if !proto.Equal(sent, back) {
+				return fmt.Sprintf("value=%q unknown=%x", back.Value, back.ProtoReflect().GetUnknown())
+			}
+			return "equal"
+		})
+		c.Count("e2e:unknown-fields")
+		if got != "equal" {
+			c.Fail("e2e-foreign-peer", "message with a field unknown to the receiver's schema, echoed by a bidi handler, "+p, got, "the message received is not the message sent")
 		}
 	}
 }
